@@ -486,6 +486,12 @@ func (s *spyStore) call(method, sid string, fn func() error) *SpyEv {
 		}
 		ev.Err = fn()
 		ev.Applied = true
+	case strings.HasPrefix(ev.Fault, "lie:"):
+		if ev.Check != nil {
+			ev.Check.Faults = ev.Check.Faults[:len(ev.Check.Faults)-1]
+		}
+		ev.Err = fn()
+		ev.Applied = true
 	case strings.HasPrefix(ev.Fault, "corrupt:"):
 		w.countFault("store-field-corrupt")
 		if ev.Check != nil {
@@ -519,6 +525,36 @@ func (s *spyStore) GetTokenResponse(ctx context.Context, id string) (*oidc.Token
 	if ev.Err != nil {
 		return nil, ev.Err
 	}
+	if strings.HasPrefix(ev.Fault, "lie:") {
+		// a store that answers with malformed / partial data (C15)
+		s.w.countFault("store-lie")
+		if ev.Check != nil {
+			ev.Check.Perturbed = true
+		}
+		honest := ""
+		if t != nil {
+			honest = t.IDToken
+		}
+		switch ev.Fault {
+		case "lie:empty":
+			t = &oidc.TokenResponse{}
+		case "lie:garbage-id":
+			t = &oidc.TokenResponse{IDToken: "garbage", AccessToken: "x", RefreshToken: "y"}
+		case "lie:dots":
+			t = &oidc.TokenResponse{IDToken: "..", RefreshToken: "y"}
+		case "lie:b64-junk":
+			t = &oidc.TokenResponse{IDToken: "e30.e30.e30"}
+		case "lie:payload-not-object":
+			t = &oidc.TokenResponse{IDToken: "eyJhbGciOiJub25lIn0.WzFd."}
+		case "lie:exp-string":
+			t = &oidc.TokenResponse{IDToken: "eyJhbGciOiJub25lIn0." + b64([]byte(`{"exp":"tomorrow","aud":1}`)) + "."}
+		case "lie:honest-id-only":
+			t = &oidc.TokenResponse{IDToken: honest}
+		}
+		s.w.corruptStore = true
+		ev.Tokens = nil
+		return t, nil
+	}
 	ev.Tokens = t
 	return t, nil
 }
@@ -535,6 +571,14 @@ func (s *spyStore) GetAuthorizationState(ctx context.Context, id string) (*oidc.
 	ev := s.call("GetAuthorizationState", id, func() (err error) { a, err = s.inner.GetAuthorizationState(ctx, id); return })
 	if ev.Err != nil {
 		return nil, ev.Err
+	}
+	if strings.HasPrefix(ev.Fault, "lie:") {
+		s.w.countFault("store-lie")
+		if ev.Check != nil {
+			ev.Check.Perturbed = true
+		}
+		ev.State = nil
+		return &oidc.AuthorizationState{}, nil
 	}
 	ev.State = a
 	return a, nil
@@ -862,6 +906,33 @@ func (w *World) Check(browser int, label, scheme, host, path string, hdr map[str
 	}
 	w.logf("t=%s #%d b%d %s %s%s sid=%s -> %s code=%d http=%d faults=%v%s", time.Since(w.start).Round(time.Millisecond), rec.N, browser, label, host, path, w.canon(rec.SID), rec.Class, rec.Code, rec.HTTP, rec.Faults, tk)
 	w.monitors(rec)
+	return rec
+}
+
+// CheckRaw sends an arbitrary (possibly malformed) CheckRequest. Only the crash/well-formedness
+// monitors apply: the routing model is not defined for requests Envoy would never build.
+func (w *World) CheckRaw(label string, req *envoy.CheckRequest) *CheckRec {
+	rec := &CheckRec{N: len(w.Checks), Browser: 9, Label: label, Filter: -1, Subject: "raw", Path: req.GetAttributes().GetRequest().GetHttp().GetPath(), Host: req.GetAttributes().GetRequest().GetHttp().GetHost()}
+	w.Checks = append(w.Checks, rec)
+	task := w.Sim.Cur()
+	if task != nil {
+		rec.Task = task.ID
+		w.active[task.ID] = rec
+	}
+	rec.Seq0, rec.T0 = w.Sim.Tick(), time.Now()
+	w.invoke(rec, req)
+	w.Sim.SetCur(task)
+	rec.Seq1, rec.T1 = w.Sim.Tick(), time.Now()
+	if task != nil {
+		delete(w.active, task.ID)
+	}
+	w.classify(rec)
+	w.logf("t=%s #%d raw %s -> %s code=%d", time.Since(w.start).Round(time.Millisecond), rec.N, label, rec.Class, rec.Code)
+	w.monPanic(rec)
+	if rec.Class != "panic" && rec.Class != "abandoned" {
+		w.monLeak(rec)
+	}
+	w.probe("raw-requests")
 	return rec
 }
 
